@@ -115,14 +115,14 @@ func gunzip(b []byte) ([]byte, error) {
 	return io.ReadAll(zr)
 }
 
-// DiskObjects decodes the object files of the collection directory with code
-// that shares nothing with the package. It returns uuid -> record.
-func DiskObjects(fs *simrt.FS, dir, ext string, compress bool) (map[string]*shapes.Rec, []string, error) {
+// DiskRaw lists the object files of a collection directory with code that
+// shares nothing with the package: uuid -> (decompressed) content.
+func DiskRaw(fs *simrt.FS, dir, ext string, compress bool) (map[string][]byte, []string, error) {
 	ents, ok := fs.RawList(dir)
 	if !ok {
 		return nil, nil, fmt.Errorf("collection directory %s does not exist", dir)
 	}
-	out := map[string]*shapes.Rec{}
+	out := map[string][]byte{}
 	var stray []string
 	suffix := ext
 	if compress {
@@ -147,10 +147,23 @@ func DiskObjects(fs *simrt.FS, dir, ext string, compress bool) (map[string]*shap
 				return nil, nil, fmt.Errorf("%s: %v", e.Name, err)
 			}
 		}
+		out[u] = data
+	}
+	return out, stray, nil
+}
+
+// DiskObjects decodes the object files of the Rec collection. It returns uuid -> record.
+func DiskObjects(fs *simrt.FS, dir, ext string, compress bool) (map[string]*shapes.Rec, []string, error) {
+	raw, stray, err := DiskRaw(fs, dir, ext, compress)
+	if err != nil {
+		return nil, nil, err
+	}
+	out := map[string]*shapes.Rec{}
+	for u, data := range raw {
 		r := &shapes.Rec{}
 		dec := json.NewDecoder(bytes.NewReader(data))
 		if err := dec.Decode(r); err != nil {
-			return nil, nil, fmt.Errorf("%s: not plain JSON: %v", e.Name, err)
+			return nil, nil, fmt.Errorf("%s: not plain JSON: %v", u, err)
 		}
 		r.Initialize(u)
 		out[u] = r
